@@ -238,6 +238,10 @@ func runC06(a *Analyzer, r *Results) {
 				if val.Op == "bin" && val.Name == c.op && len(val.Args) == 2 {
 					th, wt := val.Args[0], val.Args[1]
 					okT := th.Op == "call" && th.Name == c.calc && len(th.Args) == 1 && isWeightsOf(a, th.Args[0], cmt)
+					if !okT {
+						// the threshold computed in place from the committee's total weight (no call of the exported helper)
+						okT = isThresholdFormula(th, cmt, c.rule == "Q4.quorum")
+					}
 					okW := wt.Op == "call" && len(wt.Args) == 2 && wt.Args[0].Key() == sub.Key() && wt.Args[1].Key() == cmt.Key() && strings.HasPrefix(wt.Name, "quorum.")
 					ok = okT && okW
 					if !okT {
@@ -668,14 +672,23 @@ func runC19formula(a *Analyzer, r *Results) {
 			continue
 		}
 		val := c.Term(ret.Results[0])
-		ok2 := false
 		why := "returns " + PP(val)
-		if val.Op == "const" {
-			ok2 = !strings.HasPrefix(val.Name, "-") && val.Name != "0"
-			why += " (saturated value must be positive)"
-		} else if val.Key() == want1.Key() || val.Key() == want2.Key() {
-			ok2 = true
+		// (a helper computing "saturated ? max : base * 2^view" shows up as a conditional value: every case is judged)
+		var leafOK func(v *Term) bool
+		leafOK = func(v *Term) bool {
+			if v.Op == "ite" && len(v.Args) == 3 {
+				return leafOK(v.Args[1]) && leafOK(v.Args[2])
+			}
+			if v.Op == "const" {
+				if strings.HasPrefix(v.Name, "-") || v.Name == "0" {
+					why += " (saturated value must be positive)"
+					return false
+				}
+				return true
+			}
+			return v.Key() == want1.Key() || v.Key() == want2.Key()
 		}
+		ok2 := leafOK(val)
 		r.Check("T1.value", props("C19", "C05"), "CalcTimeout returns minTimeout * 2^view, or a positive constant on the saturated path", shortName(fn), a.P.InstrPos(ret), ok2, why, "N")
 	}
 	// the exponent base is the constant 2 and nobody writes it
@@ -724,4 +737,35 @@ func mutatesSlice(name string) bool {
 		}
 	}
 	return true
+}
+
+// isThresholdFormula: th == (S == 0 ? z : form(S)) with S the sum of the Weight fields of the committee argument;
+// quorum: z = 1, form = S - (S-1)/3 ; byzantine maximum: z = 0, form = (S-1)/3.
+func isThresholdFormula(th, cmt *Term, quorum bool) bool {
+	S := T("sum", "", cmt, Field(bound, "Weight"), tTrue)
+	f := Bin("/", Bin("-", S, Const("1")), Const("3"))
+	form, z := f, Const("0")
+	if quorum {
+		form, z = Bin("-", S, f), Const("1")
+	}
+	if th.Op != "ite" || len(th.Args) != 3 {
+		return false
+	}
+	c, x, y := th.Args[0], th.Args[1], th.Args[2]
+	neg := false
+	for c.Op == "un" && c.Name == "!" && len(c.Args) == 1 {
+		c, neg = c.Args[0], !neg
+	}
+	zero := Const("0")
+	switch {
+	case c.Op == "bin" && c.Name == "==" && len(c.Args) == 2 && ((c.Args[0].Key() == S.Key() && c.Args[1].Key() == zero.Key()) || (c.Args[1].Key() == S.Key() && c.Args[0].Key() == zero.Key())):
+	case c.Op == "bin" && c.Name == "<" && len(c.Args) == 2 && c.Args[0].Key() == zero.Key() && c.Args[1].Key() == S.Key():
+		neg = !neg // 0 < S : the non-zero case comes first
+	default:
+		return false
+	}
+	if neg {
+		x, y = y, x
+	}
+	return x.Key() == z.Key() && y.Key() == form.Key()
 }
